@@ -365,6 +365,66 @@ def l9(led, rid, ctx):
     led.floor(rid, "propagation sites with directly read bounds", n, 20)
 
 
+def l12(led, rid, ctx):
+    """CACHE-INVALIDATION: the cumulative propagation handler caches the explanation of `the
+    current profile`; every way from one use of the cache to the next that passes the point where
+    the profile operand is (re)defined also passes next_profile()"""
+    lib = ctx.lib
+    getter = "get_stored_profile_explanation_or_init"
+    users = set()
+    for f in lib.fns.values():
+        if (f.self_adt or "").endswith("CumulativePropagationHandler") and f.kind != "Closure":
+            if any(c.name == getter for g in f.with_closures() for c in g.calls):
+                users.add(f.name)
+    users.discard(getter)
+    led.check(bool(users), rid, "cache-users", None, "handler methods reading the cache: %s" % sorted(users),
+              "no method of CumulativePropagationHandler reads the cached profile explanation any more")
+    n = 0
+    for f in lib.fns.values():
+        if "/cumulative/" not in f.file or "/tests" in f.file or f.kind == "Closure":
+            continue
+        if (f.self_adt or "").endswith("CumulativePropagationHandler"):
+            continue
+        sites = [c for c in f.calls if c.name in users and
+                 "CumulativePropagationHandler" in (c.target_def or c.self_ty or "")]
+        if not sites:
+            continue
+        R = resolver(f)
+        cfg = f.cfg
+        NP = [c.bb for c in f.calls_named("next_profile")]
+        for c in sites:
+            n += 1
+            prof = peel(R.operand(c.args[2]), calls=None) if len(c.args) > 2 else None
+            defs = []
+            if prof is not None:
+                root = prof
+                while root.k in ("proj", "ref", "cast") :
+                    root = peel(root.a if root.k != "cast" else root.b, calls=None)
+                if root.k == "call":
+                    defs.append(root.a.bb)
+                elif root.k in ("local", "phi"):
+                    l = root.a if root.k == "local" else root.b
+                    for d in f.whole_defs(l):
+                        if d[0] == "call":
+                            defs.append(d[2].bb)
+                        elif d[0] == "stmt":
+                            defs.append(d[1])
+            bad = None
+            for D in defs:
+                if D == c.bb:
+                    continue
+                if cfg.reaches(c.bb, [D], avoid=NP, strict=False) and cfg.reaches(D, [c.bb], avoid=NP, strict=False) \
+                        and D not in NP:
+                    bad = D
+            led.check(bad is None, rid, "%s:%s:cache-reset-per-profile" % (f.name, c.name), c.span,
+                      "next_profile() lies between the profile's definition and the use of the cache",
+                      "%s calls %s for a profile that is redefined in a loop without next_profile() in "
+                      "between: the explanation cached for an earlier profile is given as the reason of "
+                      "a propagation made by this one (its facts hold, but they do not imply the "
+                      "propagation)" % (f.name, c.name))
+    led.floor(rid, "uses of the cached profile explanation from loops over profiles", n, 4)
+
+
 def run(ctx, led):
     run_rule(led, "L1", "propagators/constraints never call the raw domain mutators; the context's "
              "mutators store the reason they are given and pass its reference (WHO-MAY)", l1, ctx)
@@ -389,3 +449,4 @@ def run(ctx, led):
              "predicates that hold (instance-specific regression guard)", l6, ctx)
     from . import predrules
     run_rule(led, "L11", "implicit kernel reasons imply the predicate they explain (shared with C02-U8)", predrules.implicit_reasons, ctx)
+    run_rule(led, "L12", "CACHE-INVALIDATION: the cached profile explanation is reset whenever the profile operand changes", l12, ctx)
